@@ -31,6 +31,9 @@ struct Model {
     volumes: BTreeMap<Pubkey, u128>,
     /// Traders with at least one counted trade.
     counted: BTreeSet<Pubkey>,
+    /// Traders whose participant account was closed after the end of the competition: the board is
+    /// final by then and keeps showing their final volume (a re-created account starts from zero).
+    frozen: BTreeSet<Pubkey>,
 }
 
 /// One `on_executed` delivery as the competition program received it.
@@ -193,7 +196,7 @@ fn after_on_executed(
         });
     }
     if let (Some(p), Some(v)) = (part_post, model.volumes.get(&input.trader)) {
-        if p.volume != *v {
+        if p.volume != *v && !model.frozen.contains(&input.trader) {
             m.violation(
                 "C39:on_executed:participant_volume_mismatch",
                 wit(json!({"input": format!("{input:?}"), "participant_volume": p.volume.to_string(), "model_volume": v.to_string(), "counted_by_model": counted})),
@@ -372,7 +375,7 @@ impl Direct {
         match self.svm.process(&[comp_create_participant_ix(payer, self.comp, t)], &[payer]) {
             Ok(_) => {
                 m.count("op_create_participant_ok");
-                let existed = self.model.volumes.contains_key(&t);
+                let existed = self.model.volumes.contains_key(&t) && !self.model.frozen.contains(&t);
                 self.model.volumes.entry(t).or_insert(0);
                 self.note(format!("create_participant {i} existed={existed}"));
             }
@@ -392,21 +395,21 @@ impl Direct {
         let now = self.now();
         let to_end = (c.end_time as i128 - now as i128).clamp(1, 1 << 40) as u64;
         let win = (c.volume_merge_window.clamp(1, 1 << 40)) as u64;
+        // Most steps are small against the remaining time so that histories stay inside the window;
+        // steps around the merge window are taken exactly when they fit.
+        let fit = |x: u64, rng: &mut Rng| if x <= to_end / 6 || rng.chance(1, 40) { x } else { rng.range(0, 2) };
         let dt: u64 = match rng.below(12) {
             0 | 1 => 0,
             2 => 1,
-            3 => win,
-            4 => win + 1,
-            5 => win.saturating_sub(1),
-            6 => rng.range(1, win.saturating_mul(2).min(1 << 40)),
-            7 => rng.range(1, (to_end / 8).max(1)),
-            8 => {
-                if rng.chance(1, 6) {
-                    to_end
-                } else {
-                    rng.range(1, (to_end / 30).max(1))
-                }
+            3 => fit(win, rng),
+            4 => fit(win + 1, rng),
+            5 => fit(win.saturating_sub(1), rng),
+            6 => {
+                let x = rng.range(1, win.saturating_mul(2).min(1 << 40));
+                fit(x, rng)
             }
+            7 => rng.range(1, (to_end / 10).max(1)),
+            8 => rng.range(1, (to_end / 40).max(1)),
             9 => {
                 if now < c.start_time {
                     (c.start_time - now) as u64
@@ -415,13 +418,13 @@ impl Direct {
                 }
             }
             10 => {
-                if rng.chance(1, 10) {
-                    to_end.saturating_add(rng.range(1, 100))
+                if rng.chance(1, 30) {
+                    to_end.saturating_add(rng.range(0, 3))
                 } else {
                     rng.range(1, 3)
                 }
             }
-            _ => rng.range(1, 20),
+            _ => fit(rng.range(1, 20), rng),
         };
         let dt = dt.min((i64::MAX - now - 1).max(0) as u64).min(1 << 41);
         if dt > 0 {
@@ -455,8 +458,14 @@ impl Direct {
                     }
                 }
             }
-            6 => rng.log_u128(u128::MAX).max(1),
-            7 => u128::MAX - rng.range_u128(0, 3),
+            6 => rng.log_u128(10u128.pow(36)).max(1),
+            7 => {
+                if rng.chance(1, 5) {
+                    u128::MAX - rng.range_u128(0, 3)
+                } else {
+                    rng.log_u128(u128::MAX).max(1)
+                }
+            }
             8 => (thr / rng.range_u128(2, 5)).max(1),
             _ => rng.log_u128(10u128.pow(28)).max(1),
         }
@@ -603,8 +612,15 @@ impl Direct {
         match r {
             Ok(_) => {
                 m.count("close_participant_ok");
-                self.model.volumes.remove(&trader);
-                self.model.counted.remove(&trader);
+                let c = self.comp_state();
+                if self.now() > c.end_time {
+                    // The competition is over (the end can no longer move): the board is final.
+                    m.count("close_participant_ok_after_end");
+                    self.model.frozen.insert(trader);
+                } else {
+                    self.model.volumes.remove(&trader);
+                    self.model.counted.remove(&trader);
+                }
                 self.note(format!("close_participant {ti} -> ok"));
             }
             Err((e, _)) => {
@@ -615,7 +631,15 @@ impl Direct {
     }
 
     fn run(&mut self, rng: &mut Rng, m: &mut Monitor, ops: u64) {
+        let mut after_end = 0;
         for _ in 0..ops {
+            if self.now() > self.comp_state().end_time {
+                // Nothing counts any more; a few more deliveries (all ignored), then stop.
+                after_end += 1;
+                if after_end > 8 {
+                    break;
+                }
+            }
             match rng.weighted(&[60, 22, 4, 5, 2]) {
                 0 => self.op_trade(rng, m),
                 1 => self.op_warp(rng, m),
@@ -679,6 +703,19 @@ impl Real {
             params: CompParams { start_time: 0, end_time: 0, volume_threshold: 1, extension_duration: 1, extension_cap: 1, only_count_increase: false, volume_merge_window: 1 },
         };
         r.refresh_prices();
+        // Lift the default pool / open-interest caps so that many traders can hold sizeable positions.
+        for (k, v) in [
+            ("max_pool_amount_for_long_token", 1_000_000_000_000_000_000u128),
+            ("max_pool_amount_for_short_token", 1_000_000_000_000_000_000),
+            ("max_pool_value_for_deposit_for_long_token", 1_000_000_000 * UNIT),
+            ("max_pool_value_for_deposit_for_short_token", 1_000_000_000 * UNIT),
+            ("max_open_interest_for_long", 100_000_000 * UNIT),
+            ("max_open_interest_for_short", 100_000_000 * UNIT),
+        ] {
+            if let Err((e, _)) = r.w.set_market_config(market, k, v) {
+                panic!("bootstrap step `update_market_config {k}` failed: {e:?}");
+            }
+        }
         let (sol_mint, usdc_mint) = (r.w.tokens[sol].mint, r.w.tokens[usdc].mint);
         let lp = r.w.add_user("lp");
         token::fund_ata(&mut r.w.svm, &lp, &sol_mint, 400_000 * 1_000_000_000);
@@ -951,10 +988,11 @@ pub fn run(args: &Args) -> Option<i32> {
          (board volumes after the trade, trade volume, seconds since start)",
     );
     let n_shards = args.scale(64, 256);
-    let direct_histories = args.scale(30, 300);
+    let only = args.extra.get("only").cloned().unwrap_or_default();
+    let direct_histories = if only == "real" { 0 } else { args.scale(40, 120) };
     let direct_ops = args.scale(220, 300);
-    let real_histories = args.scale(2, 12);
-    let real_ops = args.scale(60, 90);
+    let real_histories = if only == "direct" { 0 } else { args.scale(1, 2) };
+    let real_ops = args.scale(40, 80);
     let seed = args.seed;
     vcommon::monitor::run_shards(&mut mon, args.threads, n_shards, |shard, m| {
         for h in 0..direct_histories {
